@@ -964,6 +964,7 @@ class Emit:
             if lf: return lf[0] in self.fns_using_ext
             x = next((self.externs["_".join(path[-k:])] for k in range(len(path), 0, -1) if "_".join(path[-k:]) in self.externs), None)
             return isinstance(x, dict) and x.get("eff", False)
+        if e[0] == "mcall" and e[1][0] == "path" and len(e[1][1]) == 1 and f"{e[1][1][0]}.{e[2]}" in self.unit.get("recv_fx_methods", {}): return True
         if e[0] == "mcall":
             for key, (ln, it) in self.local_fns.items():
                 if it["name"] == e[2] and it["owner"] and len(it["params"]) == len(e[3]) and e[1] == ("path", ["self"]) and it["owner"] == self.cur_owner:
@@ -1020,6 +1021,10 @@ class Emit:
     def _mcall(self, e):
         recv, m, args = e[1], e[2], e[3]
         if (m in ERASED_METHODS and not args) or m in ("map_err", "with_context", "context"): return (self.ex(recv), False, False)
+        if recv[0] == "path" and len(recv[1]) == 1 and f"{recv[1][0]}.{m}" in self.unit.get("recv_fx_methods", {}):
+            # an operation of the world behind a guard variable (`map.get(&k)` under the mutex): effectful, the guard is dropped
+            self.cur_uses_ext = True
+            return ("(" + " ".join([f"ext.{self.unit['recv_fx_methods'][recv[1][0] + '.' + m]}"] + ([self.atom(x) for x in args] or ["()"])) + ")", True, False)
         # a method of an extern type, selected by the NAME of the receiver variable (two extern types with a method of the same
         # name and arity, e.g. `rolling.digest()` / `hasher.digest()`): a pure operation of `Ext`
         if recv[0] == "path" and len(recv[1]) == 1 and f"{recv[1][0]}.{m}" in self.unit.get("recv_methods", {}):
@@ -1171,6 +1176,8 @@ class Emit:
             L += self.tail(tail, ind, mode)
         elif mode == "val" and not (stmts and self.diverges(stmts[-1])):
             L.append(ind + "pure ()")
+        elif mode == "ret" and stmts and stmts[-1][0] == "expr" and stmts[-1][1][0] == "loop" and self.cur_result and self.effects:
+            L.append(ind + "throw Rs.Err.other          -- the fuel ran out: the Rust `loop` has no exit at this point")
         elif mode == "ret" and not (stmts and self.diverges(stmts[-1])):
             L.append(ind + ("return self" if self.cur_self == "mut" else "pure ()"))
         if not L: L.append(ind + "pure ()")
@@ -1305,6 +1312,19 @@ class Emit:
         if s[0] == "let" and s[1][0] == "bind" and s[4] is not None and s[4][0] == "mcall" and s[4][2] == "unwrap" and not s[4][3] \
            and s[4][1][0] == "mcall" and s[4][1][2] == "lock" and s[4][1][1] == ("path", [s[1][1]]):
             return []          # `let mut v = v.lock().unwrap();` — the guard shadows the mutex: updates go to `v` itself
+        if s[0] == "let" and s[1][0] == "bind" and s[1][1] in self.unit.get("skip_lock_lets", []) and s[4] is not None and s[4][0] == "mcall" \
+           and s[4][2] == "unwrap" and s[4][1][0] == "mcall" and s[4][1][2] == "lock":
+            return []          # a mutex guard whose every use is an operation of the world (spec `recv_fx_methods`)
+        if s[0] == "let" and s[1][0] == "bind" and s[4] is not None and s[4][0] == "asyncblock":
+            # `let r: Result<T> = async { … }.await;` — the block runs in place; its own `?` / `return` leave the BLOCK
+            body = s[4][1]
+            saved = self.cur_result; self.cur_result = True
+            try:
+                L = [ind + f"let {lname(s[1][1])} ← Rs.capture (do"] + self.seq(body, ind + "    ", "ret")
+            finally:
+                self.cur_result = saved
+            L[-1] = L[-1] + ")"
+            return L
         if s[0] == "let":
             _, p, mut, ty, init, els = s
             te = self.unit.get("typed_externs", [])
@@ -1359,6 +1379,8 @@ class Emit:
                 if op == "=": return [ind + f"{x} := {{ {x} with {f} := {r} }}"]
                 return [ind + f"{x} := {{ {x} with {f} := {x}.{f} {self.BINOP[op[:-1]]} {r} }}"]
             raise Unsupported("assignment target")
+        if k == "return" and e[1] is not None and e[1][0] in ("if", "iflet", "match") and not self.pure_expr(e[1]):
+            return self.branching(e[1], ind, "ret")
         if k == "return":
             if e[1] is None:
                 return [ind + ("return self" if self.cur_self == "mut" else "return ()")]
@@ -1383,9 +1405,15 @@ class Emit:
             fuel = self.unit.get("fuel", {}).get(self.cur_fn)
             if fuel is None: raise Unsupported("loop without a fuel bound in the spec")
             return [ind + f"for _ in [0:{fuel}] do"] + self.seq(e[1], ind + "  ", "unit")
+        if k == "path" and len(e[1]) == 1 and e[1][0] in self.unit.get("await_vars", {}):
+            self.cur_uses_ext = True
+            return [ind + f"let _ ← ext.{self.unit['await_vars'][e[1][0]]} {lname(e[1][0])}"]          # `fut.await;`
         if k == "mcall":
             recv, m, args = e[1], e[2], e[3]
             if m in self.unit.get("skip_method_stmts", []): return []
+            if recv[0] == "path" and len(recv[1]) == 1 and f"{recv[1][0]}.{m}" in self.unit.get("recv_fx_methods", {}):
+                self.cur_uses_ext = True
+                return [ind + "let _ ← " + " ".join([f"ext.{self.unit['recv_fx_methods'][recv[1][0] + '.' + m]}"] + ([self.atom(x) for x in args] or ["()"]))]
             if m == "push" and len(args) == 1 and recv[0] == "mcall" and recv[2] == "or_default" and not recv[3] \
                and recv[1][0] == "mcall" and recv[1][2] == "entry" and len(recv[1][3]) == 1 \
                and recv[1][1][0] == "path" and len(recv[1][1][1]) == 1:
@@ -1628,6 +1656,7 @@ def translate_unit(unit, repo):
         if f not in items_by_file: items_by_file[f] = parse_file(os.path.join(repo, f))
         return items_by_file[f]
     em = Emit(unit, None)
+    for en in unit.get("extra_enums", []): em.enums[en] = {"name": en, "variants": []}      # enums declared by hand in the spec
     decls = []   # (kind, rust key, lean name, item)
     for ent in unit["items"]:
         if ent[0] == "lean":
